@@ -92,7 +92,7 @@ static void *ledger_alloc(size_t n) {
     long seq = E.alloc_seq++;
     if (E.fail_at == seq) { E.last_alloc_p = NULL; return NULL; }
     void *p = malloc(n ? n : 1);
-    memset(p, 0xDD, n);                 /* fresh memory is never zero */
+    memset(p, E.alloc_fill_set ? E.alloc_fill : 0xDD, n);   /* fresh memory is never zero (unless a case asks for a specific fill) */
     if (E.nlive >= MAXLIVE) { fprintf(stderr, "harness: ledger full\n"); abort(); }
     E.live[E.nlive].p = p; E.live[E.nlive].n = n; E.live[E.nlive].wiped = 0; E.nlive++;
     E.last_alloc_p = p;
